@@ -6,3 +6,4 @@ import LicenseExpr.Props.C04
 #print axioms LE.C04_longest
 #print axioms LE.ownedW_spec
 #print axioms LE.C04_alone
+#print axioms LE.C04_alone_validates
